@@ -804,4 +804,182 @@ theorem step_V (tps : Array (Array Int)) (sf ef : Array Int) (sens : Nat → Arr
     simp only [sel] at hle
     omega
 
+/-! ### the whole second pass -/
+
+theorem v_start (tps : Array (Array Int)) (sf ef : Array Int) (sens : Nat → Array Int) (n : Nat) (hn : 1 ≤ n) :
+    V tps sf ef sens n 0 (start n).hmms := by
+  have hw : worst = -536870912 := rfl
+  have hget : ∀ i h, (start n).hmms[i]? = some h →
+      h = (if i = 0 then ({ s0 := 0, h0 := 0, frame := 0 } : Hmm) else {}) := by
+    intro i h he
+    unfold start at he
+    simp only [List.getElem?_map] at he
+    cases hr : (List.range n)[i]? with
+    | none => rw [hr] at he; simp at he
+    | some k =>
+      rw [hr] at he
+      have hk : k = i := by
+        by_cases hin : i < n
+        · rw [List.getElem?_range hin] at hr; simpa using hr.symm
+        · rw [List.getElem?_eq_none (by simpa using hin)] at hr; simp at hr
+      subst hk
+      simp only [Option.map_some, Option.some.injEq] at he
+      exact he.symm
+  have h0 : (start n).hmms[0]? = some ({ s0 := 0, h0 := 0, frame := 0 } : Hmm) := by
+    unfold start
+    rw [List.getElem?_map, List.getElem?_range (by omega)]
+    rfl
+  refine ⟨?_, ?_, ?_, ?_, ?_⟩
+  · intro i h he hfr j hj hal
+    have := hget i h he
+    by_cases hi : i = 0
+    · subst hi
+      simp only [if_true] at this
+      subst this
+      match j, hj with
+      | 0, _ => exact PathTo.start
+      | 1, _ => simp [sel, hw] at hal
+      | 2, _ => simp [sel, hw] at hal
+    · simp only [hi, if_false] at this
+      subst this
+      simp at hfr
+  · intro i h he hfr hal
+    have := hget i h he
+    by_cases hi : i = 0
+    · subst hi; simp only [if_true] at this; subst this; simp [hw] at hal
+    · simp only [hi, if_false] at this; subst this; simp at hfr
+  · intro k sc hp
+    cases hp
+    exact ⟨_, h0, rfl, by simp [sel]⟩
+  · intro i h he hfr hal
+    have := hget i h he
+    by_cases hi : i = 0
+    · subst hi; simp only [if_true] at this; subst this; simp [hw] at hal
+    · simp only [hi, if_false] at this; subst this; simp at hfr
+  · intro i h f' sc _ _ hff
+    omega
+
+theorem runAux_V (tps : Array (Array Int)) (sf ef : Array Int) (sens : Nat → Array Int) (n : Nat)
+    (hmono : ∀ i, i + 1 < n → ef.getD i 0 ≤ ef.getD (i + 1) 0) (hok : AllOK tps sens) (frames : List (Array Int)) :
+    ∀ (s : Search) (f : Nat) (rows : List (List Tok)) (rn : Bool),
+    s.hmms.length = n → rows.length = f → (∀ j (hj : j < frames.length), sens (f + j) = frames[j]) →
+    ((f + frames.length : Nat) : Int) * 33022 ≤ 533000000 →
+    (∀ i h, s.hmms[i]? = some h → K sf ef rows f s.best i h) →
+    V tps sf ef sens n f s.hmms →
+    V tps sf ef sens n (f + frames.length) (runAux tps sf ef frames s f rows rn).1.hmms := by
+  induction frames with
+  | nil => intro s f rows rn _ _ _ _ _ hV; exact hV
+  | cons sen rest ih =>
+    intro s f rows rn hn hl hs hB hK hV
+    have hB1 : ((f : Int) + 1) * 33022 ≤ 533000000 := by
+      simp only [List.length_cons] at hB; push_cast at hB; omega
+    have hsen : sens f = sen := by have := hs 0 (by simp); simpa using this
+    have hokf : FrameOK tps sen := by rw [← hsen]; exact hok f
+    obtain ⟨k1, k2⟩ := step_K tps sf ef sen rows f s n (by omega) hmono hl hokf hB1 hK
+    have v1 := step_V tps sf ef sens rows f s n hn hmono hok hB1 hK hV
+    rw [hsen] at v1
+    have e : f + (sen :: rest).length = f + 1 + rest.length := by simp only [List.length_cons]; omega
+    rw [e]
+    exact ih (step tps sf ef sen (f : Int) s).1 (f + 1) (rows ++ [(step tps sf ef sen (f : Int) s).2])
+      (rn || decide (s.best - 0x300000 < worst)) (by rw [k2]; exact hn) (by simp [hl])
+      (fun j hj => by
+        have := hs (j + 1) (by simp; omega)
+        have e2 : f + (j + 1) = f + 1 + j := by omega
+        rw [e2] at this; simpa using this)
+      (by rw [← e]; exact hB) k1 v1
+
+/-- **Viterbi optimality of the aligner's search.**  Under the hypotheses of `run_wfTokens`: the final out-score is
+an upper bound of the score of every admissible complete path, and when it is alive it is the score of one. -/
+theorem run_optimal (tps : Array (Array Int)) (sf ef : Array Int) (frames : List (Array Int))
+    (hok : ∀ sen ∈ frames, FrameOK tps sen) (hsf : sf.getD 0 0 ≤ 0)
+    (hmono : ∀ i, i + 1 < sf.size → ef.getD i 0 ≤ ef.getD (i + 1) 0)
+    (hT : (frames.length : Int) * 33022 ≤ 533000000)
+    (hend : (frames.length : Int) ≤ ef.getD (sf.size - 1) 0) :
+    (∀ sc, FullPath tps sf ef (fun g => frames.getD g #[]) sf.size frames.length sc →
+      sc ≤ (run tps sf ef frames).2.1.score) ∧
+    ((run tps sf ef frames).2.1.score > worst →
+      FullPath tps sf ef (fun g => frames.getD g #[]) sf.size frames.length (run tps sf ef frames).2.1.score) := by
+  have hw : worst = -536870912 := rfl
+  by_cases hn : sf.size = 0
+  · -- no phone: no complete path, dead final score
+    refine ⟨?_, ?_⟩
+    · rintro sc ⟨f, sc0, _, h1, _⟩; omega
+    · intro hal
+      exfalso
+      have : (run tps sf ef frames).2.1.score = ((runAux tps sf ef frames (start sf.size) 0 [] false).1.hmms.getD (sf.size - 1) {}).out := rfl
+      rw [this] at hal
+      have hl := (runAux_K tps sf ef sf.size hmono frames (start sf.size) 0 [] false (by simp [start]) rfl hok
+        (by simpa using hT) (k_start sf ef sf.size hsf)).2.2
+      have hlen : (runAux tps sf ef frames (start sf.size) 0 [] false).1.hmms.length = 0 := by
+        rw [hl]; simp [start, hn]
+      rw [List.getD_eq_getElem?_getD, List.getElem?_eq_none (by omega)] at hal
+      simp [hw] at hal
+  · by_cases hT0 : frames.length = 0
+    · -- no frame
+      refine ⟨?_, ?_⟩
+      · rintro sc ⟨f, sc0, h0, _⟩; omega
+      · intro hal
+        exfalso
+        have hf : frames = [] := List.length_eq_zero_iff.1 hT0
+        subst hf
+        have : (run tps sf ef []).2.1.score = ((start sf.size).hmms.getD (sf.size - 1) {}).out := rfl
+        rw [this] at hal
+        unfold start at hal
+        rw [List.getD_eq_getElem?_getD, List.getElem?_map, List.getElem?_range (by omega)] at hal
+        simp only [Option.map_some, Option.getD_some] at hal
+        split at hal <;> simp [hw] at hal
+    · -- the data of every frame index are in range
+      obtain ⟨sen0, hsen0⟩ : ∃ x, x ∈ frames := by
+        cases frames with
+        | nil => simp at hT0
+        | cons x _ => exact ⟨x, List.mem_cons_self ..⟩
+      have hall : AllOK tps (fun g => frames.getD g #[]) := by
+        intro g
+        by_cases hg : g < frames.length
+        · have : frames.getD g #[] = frames[g] := by simp [List.getD_eq_getElem?_getD, hg]
+          simp only [this]
+          exact hok _ (List.getElem_mem hg)
+        · have : frames.getD g #[] = #[] := by
+            rw [List.getD_eq_getElem?_getD, List.getElem?_eq_none (by omega)]; rfl
+          simp only [this]
+          exact ⟨(hok sen0 hsen0).noskip, (hok sen0 hsen0).tp, fun k => by simp⟩
+      have hlenS : (start sf.size).hmms.length = sf.size := by simp [start]
+      obtain ⟨k1, k2, k3⟩ := runAux_K tps sf ef sf.size hmono frames (start sf.size) 0 [] false
+        (by rw [hlenS]; exact Nat.le_refl _) rfl hok (by simpa using hT) (k_start sf ef sf.size hsf)
+      have hV := runAux_V tps sf ef (fun g => frames.getD g #[]) sf.size hmono hall frames (start sf.size) 0 [] false
+        hlenS rfl (fun j hj => by simp [List.getD_eq_getElem?_getD, hj]) (by simpa using hT) (k_start sf ef sf.size hsf)
+        (v_start tps sf ef _ sf.size (by omega))
+      simp only [Nat.zero_add] at k1 k2 hV
+      have hrun : (run tps sf ef frames).2.1.score =
+          ((runAux tps sf ef frames (start sf.size) 0 [] false).1.hmms.getD (sf.size - 1) {}).out := rfl
+      rw [hrun]
+      generalize runAux tps sf ef frames (start sf.size) 0 [] false = R at *
+      have hlen : R.1.hmms.length = sf.size := by rw [k3, hlenS]
+      have hidx : sf.size - 1 < R.1.hmms.length := by omega
+      have hget : R.1.hmms[sf.size - 1]? = some (R.1.hmms.getD (sf.size - 1) {}) := by
+        rw [List.getD_eq_getElem?_getD, List.getElem?_eq_getElem hidx]; rfl
+      generalize R.1.hmms.getD (sf.size - 1) {} = last at *
+      have hK := k1 (sf.size - 1) last hget
+      refine ⟨?_, ?_⟩
+      · rintro sc ⟨f, sc0, hTf, _, hp, hwin, rfl⟩
+        -- the path can be extended by one frame, so the last HMM is active at the end
+        have hext := PathTo.self hp hwin
+        rw [← hTf] at hext
+        obtain ⟨h, hl, hfe, _⟩ := hV.complete _ _ hext
+        have hdd : (3 * (sf.size - 1) + 2) / 3 = sf.size - 1 := by omega
+        rw [hdd, hget] at hl
+        have : h = last := (Option.some.inj hl).symm
+        subst this
+        exact hV.outC (sf.size - 1) h f sc0 hget hfe hTf hp hwin
+      · intro hal
+        have hfr : last.frame = (frames.length : Int) := by
+          have h1 := hK.frameLe
+          by_cases a : last.frame < (frames.length : Int)
+          · rcases hK.inact a with ⟨_, _, _, fo⟩ | hexp
+            · omega
+            · omega
+          · omega
+        obtain ⟨f', sc, h1, h2, h3, h4⟩ := hV.outS (sf.size - 1) last hget hfr hal
+        exact ⟨f', sc, h1, by omega, h2, h3, h4⟩
+
 end SSVerif.Align.Step
